@@ -272,11 +272,13 @@ def corpus():
          'scripts': {}, 'sched': [], 'model_seed': 1, 'stream': 'main'},
         {'kind': 'prog', 'mode': 'threads', 'files': {'m0.py': src}, 'entries': [['m0', 'f', 2], ['m0', 'f', 0]],
          'tps': tps, 'scripts': {}, 'sched': [], 'model_seed': 2, 'stream': 'main'},
-        # the polluter first, then fresh threads one after the other: nothing may be inherited
-        {'kind': 'prog', 'mode': 'threads', 'sequential': True, 'files': {'m0.py': REC_SRC + '\n\n' + src.replace(
-            'def f(n, k)', 'def f(n, k)')}, 'entries': [['m0', 'rec', 2], ['m0', 'h', 0], ['m0', 'h', 1]],
-         'tps': [span_tp(0, 'm0.py', method='rec', scripted=True), span_tp(1, 'm0.py', method='h')],
-         'scripts': {'T0': {'tp0': [True, False, False]}}, 'sched': [], 'model_seed': 3, 'stream': 'kf-rec'},
+        # a polluter first (method + line span pending at f's return: the method span stays pending when the thread
+        # ends, known finding), then fresh threads one after the other (thread idents are reused): nothing may be
+        # inherited by them
+        {'kind': 'prog', 'mode': 'threads', 'sequential': True, 'files': {'m0.py': STACK_SRC, 'm1.py': src},
+         'entries': [['m0', 'g', 1], ['m1', 'h', 0], ['m1', 'h', 1]],
+         'tps': [span_tp(0, 'm0.py', method='f'), span_tp(1, 'm0.py', line=4), span_tp(2, 'm1.py', method='h')],
+         'scripts': {}, 'sched': [], 'model_seed': 3, 'stream': 'kf-stack'},
     ]
 
 
